@@ -62,9 +62,10 @@ fn file_ident(objs: &HashMap<Ino, u32>, f: &File) -> String {
 }
 
 /// run one frontend operation; returns the `ret=` text. `made` collects descriptors created for the call (closed afterwards).
-fn do_op(fe: &mut Frontend, toks: &[String], objs: &Arc<Mutex<Objs>>, shared: &Arc<Mutex<Shared>>) -> String {
+fn do_op(fe: &mut Frontend, toks: &[String], objs: &Arc<Mutex<Objs>>, shared: &Arc<Mutex<Shared>>) -> (String, usize) {
     let t: Vec<&str> = toks.iter().map(|s| s.as_str()).collect();
     let mut made: Vec<RawFd> = Vec::new();
+    let mut made_ino: Vec<Option<Ino>> = Vec::new();
     let same_file = |f: &File| -> &'static str {
         let want = shared.lock().unwrap().last_returned;
         match (want, ino_of(f.as_raw_fd())) {
@@ -85,7 +86,7 @@ fn do_op(fe: &mut Frontend, toks: &[String], objs: &Arc<Mutex<Objs>>, shared: &A
                     let f: Vec<&str> = r.split(',').collect();
                     let fd = if f.len() > 4 && f[4] == "badfd" { -1 } else {
                         let fd = objs.lock().unwrap().fresh_memfd(0);
-                        made.push(fd);
+                        { made.push(fd); made_ino.push(ino_of(fd)); }
                         fd
                     };
                     regs.push(VhostUserMemoryRegionInfo { guest_phys_addr: p(f[0]), memory_size: p(f[1]), userspace_addr: p(f[2]),
@@ -98,14 +99,14 @@ fn do_op(fe: &mut Frontend, toks: &[String], objs: &Arc<Mutex<Objs>>, shared: &A
             let region = if t.len() > 2 && t[2] != "-" {
                 let f: Vec<&str> = t[2].split(',').collect();
                 let fd = objs.lock().unwrap().fresh_memfd(0);
-                made.push(fd);
+                { made.push(fd); made_ino.push(ino_of(fd)); }
                 Some(VhostUserDirtyLogRegion { mmap_size: p(f[0]), mmap_offset: p(f[1]), mmap_handle: fd })
             } else { None };
             match fe.set_log_base(p(t[1]), region) { Ok(()) => "ok".into(), Err(e) => verr(&e) }
         }
         "set_log_fd" => {
             let fd = objs.lock().unwrap().fresh_memfd(0);
-            made.push(fd);
+            { made.push(fd); made_ino.push(ino_of(fd)); }
             match fe.set_log_fd(fd) { Ok(()) => "ok".into(), Err(e) => verr(&e) }
         }
         "set_vring_num" => match fe.set_vring_num(p(t[1]) as usize, p(t[2]) as u16) { Ok(()) => "ok".into(), Err(e) => verr(&e) },
@@ -173,7 +174,7 @@ fn do_op(fe: &mut Frontend, toks: &[String], objs: &Arc<Mutex<Objs>>, shared: &A
             let inf = VhostUserInflight::new(p(t[1]), p(t[2]), p(t[3]) as u16, p(t[4]) as u16);
             let fd = if t.len() > 5 && t[5] == "badfd" { -1 } else {
                 let fd = objs.lock().unwrap().fresh_memfd(0);
-                made.push(fd);
+                { made.push(fd); made_ino.push(ino_of(fd)); }
                 fd
             };
             match fe.set_inflight_fd(&inf, fd) { Ok(()) => "ok".into(), Err(e) => verr(&e) }
@@ -182,7 +183,7 @@ fn do_op(fe: &mut Frontend, toks: &[String], objs: &Arc<Mutex<Objs>>, shared: &A
         "add_mem_region" | "remove_mem_region" => {
             let fd = if t.len() > 5 && t[5] == "badfd" { -1 } else if t[0] == "add_mem_region" {
                 let fd = objs.lock().unwrap().fresh_memfd(0);
-                made.push(fd);
+                { made.push(fd); made_ino.push(ino_of(fd)); }
                 fd
             } else { -1 };
             let r = VhostUserMemoryRegionInfo { guest_phys_addr: p(t[1]), memory_size: p(t[2]), userspace_addr: p(t[3]),
@@ -221,10 +222,17 @@ fn do_op(fe: &mut Frontend, toks: &[String], objs: &Arc<Mutex<Objs>>, shared: &A
         }
         _ => "bad-op".into(),
     };
+    // descriptors that were only lent to the library for transmission must still be open (and be the same objects)
+    let mut lent_closed = 0;
+    for (fd, ino) in made.iter().zip(made_ino.iter()) {
+        if ino_of(*fd) != *ino {
+            lent_closed += 1;
+        }
+    }
     for fd in made {
         close(fd);
     }
-    r
+    (r, lent_closed)
 }
 
 fn readable(fd: RawFd, ms: i32) -> bool {
@@ -282,7 +290,7 @@ pub fn run(line: &str) -> String {
         let mut wire: Vec<u8> = Vec::new();
         let mut wire_fds: Vec<String> = Vec::new();
         let mut replied = false;
-        let mut ret: Option<String> = None;
+        let mut ret: Option<(String, usize)> = None;
         loop {
             if let Ok(r) = rx.try_recv() {
                 ret = Some(r);
@@ -325,7 +333,12 @@ pub fn run(line: &str) -> String {
                                 let bytes = hex_to_bytes(hexs);
                                 let mut fds = Vec::new();
                                 for _ in 0..n {
-                                    fds.push(new_memfd(0));
+                                    let fd = new_memfd(0);
+                                    let mut o = objs.lock().unwrap();
+                                    let id = 1000 + o.next;
+                                    o.map.insert(ino_of(fd).unwrap(), id);
+                                    o.next += 0;
+                                    fds.push(fd);
                                 }
                                 if !bytes.is_empty() {
                                     let _ = sendmsg(other_fd, &bytes, &fds, 0);
@@ -361,7 +374,7 @@ pub fn run(line: &str) -> String {
                 std::thread::sleep(Duration::from_millis(1));
             }
         }
-        let ret = match ret {
+        let (ret, lent_closed) = match ret {
             Some(r) => {
                 let _ = th.join();
                 r
@@ -372,7 +385,7 @@ pub fn run(line: &str) -> String {
                 other = None;
                 let _ = th.join();
                 dead = true;
-                "blocked".to_string()
+                ("blocked".to_string(), 0)
             }
         };
         if mode == "srv" {
@@ -380,7 +393,7 @@ pub fn run(line: &str) -> String {
                 let sh = shared.lock().unwrap();
                 if sh.calls.is_empty() { "-".to_string() } else { sh.calls.join(";") }
             };
-            obs.push(format!("ret={} c={}", ret, calls));
+            obs.push(format!("ret={} c={} lc={}", ret, calls, lent_closed));
         } else {
             // the 4 tail padding bytes of VhostUserInflight are not defined by anything: mask them
             if wire.len() == 36 && (wire[0] == 31 || wire[0] == 32) && wire[1..4] == [0, 0, 0] {
@@ -388,11 +401,20 @@ pub fn run(line: &str) -> String {
                     *b = 0;
                 }
             }
-            obs.push(format!("ret={} w={} wf={}", ret, bytes_to_hex(&wire), if wire_fds.is_empty() { "-".to_string() } else { wire_fds.join(",") }));
+            obs.push(format!("ret={} w={} wf={} lc={}", ret, bytes_to_hex(&wire), if wire_fds.is_empty() { "-".to_string() } else { wire_fds.join(",") }, lent_closed));
         }
     }
     drop(handler);
     drop(other);
     fe.lock().unwrap().take();
+    {
+        let mut sh = shared.lock().unwrap();
+        sh.backend = None;
+        sh.gpu = None;
+        sh.kept.clear();
+    }
+    drop(backend);
+    let leaked = open_idents(&objs.lock().unwrap().map);
+    obs.push(format!("L={}", if leaked.is_empty() { "-".to_string() } else { leaked.iter().map(|x| x.to_string()).collect::<Vec<_>>().join(",") }));
     obs.join(" | ")
 }
